@@ -26,7 +26,6 @@ simplify) and compared with calling the real function; a mismatch raises
 import ast
 import builtins
 import inspect
-import math
 import operator
 import struct
 import textwrap
@@ -310,10 +309,6 @@ def fn_ast(fn):
             raise Unsupported("not a function definition: %r" % (fn,))
         _AST_CACHE[key] = node
     return _AST_CACHE[key]
-
-
-def source_lines(fn):
-    return inspect.getsource(fn)
 
 
 # --------------------------------------------------------------------------- interpreter
@@ -1596,13 +1591,26 @@ class Session:
         division by zero) are valid under the premises, and
       * premises + not(claim) is unsat."""
 
-    def __init__(self, params, timeout_ms=20000, logic=None):
+    @staticmethod
+    def make_solver(logic, timeout_ms):
+        if logic and logic.startswith("tactic:"):
+            s = z3.Tactic(logic.split(":", 1)[1]).solver()
+        else:
+            s = z3.SolverFor(logic) if logic else z3.Solver()
+        s.set("timeout", int(timeout_ms))
+        return s
+
+    def __init__(self, params, timeout_ms=20000, logic=None, alts=()):
         self.params = params
         # logic: with push/pop z3's default solver falls back to its slow incremental core; for pure
         # bit-vector work SolverFor("QF_BV") keeps an incremental SAT back end (measured: crc16 on 4
         # bytes 0.15 s instead of 4.6 s, crc64 step solved instead of timing out)
-        self.solver = z3.SolverFor(logic) if logic else z3.Solver()
-        self.solver.set("timeout", int(timeout_ms))
+        # logic "tactic:<name>" builds the solver from a tactic (qffp for floating point: measured 1 s
+        # instead of 8-21 s / unknown on the PID limit queries, but slower on others); `alts` is a
+        # portfolio: [(logic, timeout_ms), ...] tried in order on a fresh solver when the kept-alive
+        # primary solver answers unknown
+        self.solver = self.make_solver(logic, timeout_ms)
+        self.alts = list(alts)
         self.timeout_ms = int(timeout_ms)
         self.t0 = time.time()
         self.budget = float(params.get("budget", 60))
@@ -1630,8 +1638,62 @@ class Session:
         finally:
             self.solver.pop()
         self.checks += 1
+        if r == "unknown":
+            for logic, tmo in self.alts:
+                alt = self.make_solver(logic, tmo)
+                alt.add(*cons)
+                r = str(alt.check())
+                self.checks += 1
+                if r != "unknown":
+                    m = alt.model() if r == "sat" else None
+                    why = ""
+                    self.res["extra"]["portfolio_hits"] = self.res["extra"].get("portfolio_hits", 0) + 1
+                    break
+                why = why + " / " + alt.reason_unknown()
         self.stime += time.time() - t
         return r, m, why
+
+    XCHECK = (("z3-4.8.12", ["/usr/bin/z3", "-smt2", "-T:25"]), ("cvc5", ["/usr/bin/cvc5", "--tlimit=25000"]))
+
+    def xcheck(self, cons, what):
+        """thorough tier: dump an `unsat` query as SMT-LIB2 and let the external cvc5 / z3 4.8.12 binaries
+        re-decide it (DESIGN section 2).  A `sat` from either is a disagreement -> inconclusive; errors,
+        unsupported logics and timeouts are only counted."""
+        import os
+        import subprocess
+        import tempfile
+        ex = self.res["extra"]
+        n = ex.get("xcheck_queries", 0)
+        if not self.params.get("xcheck") or n >= int(self.params.get("xcheck_max", 4)):
+            return True
+        ex["xcheck_queries"] = n + 1
+        tmp = z3.Solver()
+        tmp.add(*cons)
+        text = "(set-logic ALL)\n" + tmp.to_smt2()
+        fd, path = tempfile.mkstemp(suffix=".smt2", prefix="e2x_")
+        ok = True
+        try:
+            with os.fdopen(fd, "w") as f:
+                f.write(text)
+            for name, cmd in self.XCHECK:
+                if not os.path.exists(cmd[0]):
+                    continue
+                try:
+                    out = subprocess.run(cmd + [path], capture_output=True, text=True, timeout=40).stdout.strip().split("\n")[0]
+                except Exception as e:
+                    out = "timeout"
+                k = "xcheck_%s_%s" % (name, out if out in ("unsat", "sat", "unknown", "timeout") else "error")
+                ex[k] = ex.get(k, 0) + 1
+                if out == "sat":
+                    ok = False
+                    self.inconclusive("cross-check disagreement: %s says sat on a query z3 %s proved unsat (%s)"
+                                      % (name, z3.get_version_string(), what))
+        finally:
+            try:
+                os.unlink(path)
+            except OSError:
+                pass
+        return ok
 
     def over_budget(self):
         return time.time() - self.t0 > self.budget
@@ -1716,6 +1778,8 @@ class Session:
             return "sat"
         if r != "unsat":
             self.inconclusive("solver unknown (%s) for %s %s" % (why, key, what))
+            return "unknown"
+        if not self.xcheck(prem + [z3.Not(claim)], "%s %s" % (key, what)):
             return "unknown"
         # 3. vacuity guards: an `unsat` only counts if the premises are satisfiable and a
         #    deliberately wrong oracle is refuted by the same premises
@@ -1829,11 +1893,11 @@ class Session:
         return r
 
 
-def run_obligation(body, logic=None, timeout_ms=20000):
+def run_obligation(body, logic=None, timeout_ms=20000, alts=()):
     """wrap an E2 obligation body(sess, params): Unsupported -> inconclusive (never silent),
     TranslationMismatch propagates (harness error)."""
     def fn(params):
-        sess = Session(params, timeout_ms=params.get("timeout_ms", timeout_ms), logic=logic)
+        sess = Session(params, timeout_ms=params.get("timeout_ms", timeout_ms), logic=logic, alts=alts)
         try:
             body(sess, params)
         except Unsupported as e:
